@@ -100,3 +100,25 @@ end
 def WF (t : List Seg) : Bool := wfL false t
 
 end CV.Template
+
+namespace CV.Template
+
+/-! ## Auxiliary notions used by the statements of `Props/C07` -/
+
+/-- `$` ↦ `$$` (what `interpolation`/`C08` use to protect literal text) -/
+def escapeDollars : Str → Str
+  | [] => []
+  | c :: cs => if c = '$' then '$' :: '$' :: escapeDollars cs else c :: escapeDollars cs
+
+/-- there is a `}` before the first newline -/
+def closesOnLine (s : Str) : Prop := ∃ c ∈ s.takeWhile (· != '\n'), c = '}'
+
+/-- the text after `${` is `NAME}`… or `NAME op … }` with the `}` on the same line -/
+def WellFormedBrace (r : Str) : Prop :=
+  ∃ n tail, r = n ++ tail ∧ validName n = true ∧ noNameHead tail = true ∧
+    (tail.head? = some '}' ∨ ∃ (o : Op) (r3 : Str), tail = o.str ++ r3 ∧ closesOnLine r3)
+
+/-- a `$` that starts nothing: not followed by `$`, `{` or a name-start character -/
+def loneAfter (X : Str) : Prop := ∀ c, X.head? = some c → c ≠ '$' ∧ c ≠ '{' ∧ isNameStart c = false
+
+end CV.Template
